@@ -1,6 +1,7 @@
 import YaqsModel.Basic.Parse
 import YaqsModel.Model.Verdict
 import YaqsModel.Model.MpoUpdate
+import YaqsModel.Model.CheckerChain
 /-! line protocol of the C04 model
 
   verdict <t> <n> <f>            → 1 | 0                 (`MPO.check_if_identity`, repaired code)
@@ -30,6 +31,13 @@ import YaqsModel.Model.MpoUpdate
   lrhang top|bottom | G | W | Wprev                  → shape + entries of the hanging-tensor theta
   sp n | <msite>×n | <msite>×n                       → `re im` of `MPS.scalar_product` | `assert`
   idtrace f | <site>×n                               → `tr re im dec b` of `MPO.check_if_identity(f)`
+  requests of the chain-level long-range model `Model/CheckerChain.lean` (extension xl04):
+  lrlayer c d thr q0 q1 nG n nsteps | <site G>×nG | <site W>×n | (m k1 k2 kf | <gate>×(k1+k2) | U | s | Vh)×nsteps
+        → one whole `apply_long_range_layer(…, conjugate = (c == 2))` for the gate on qubits (q0, q1) of circuit c with
+          `gate_.mpo_tensors = G` on the n-site chain W: `lrLayer` (`lrGateTensors`, `lrMul`, then `runSteps` over the pair
+          updates with the SVD factors of each `decompose_theta`); answer `tm … | keep k` per pair update (the matrix handed
+          to the SVD, the kept rank) then `chain | <site>×nG` (the tensors of the span afterwards) | `assert`
+  lrstack c d loc nG n | <site G>×nG | <site W>×n    → `<site>×nG`: the span of `lrMul` (all gate tensors stacked, no SVD)
 -/
 open Yaqs Yaqs.Verdict
 
@@ -138,6 +146,91 @@ def showTm (d Dl Dr : Nat) (θ : T6 CRat) : String :=
   let tm := thetaMatrix d Dl Dr θ
   s!"tm {rows} {cols} " ++ showArr (Array.ofFn (n := rows * cols) fun k => tm (k.val / cols) (k.val % cols))
 
+/-! ### chain-level long-range layer (extension xl04) -/
+open Yaqs.CheckerChain in
+/-- the pair updates of one layer, parsed while the chain is stepped (the shapes of `U`, `Vh` depend on the current bonds):
+    returns the `tm … | keep k` texts, the steps, the SVD data and the gate table -/
+def lrSteps (d : Nat) (thr : Rat) (nsteps : Nat) (parts : List (List String)) (ts : List (Site CRat))
+    (tab : Array (Gate CRat)) (acc : List String) (steps : List Step) (decs : List (Svd CRat)) :
+    Option (List String × List Step × List (Svd CRat) × Array (Gate CRat)) :=
+  match nsteps with
+  | 0 => if parts.isEmpty then some (acc.reverse, steps.reverse, decs.reverse, tab) else none
+  | k + 1 =>
+    match parts with
+    | [m, k1, k2, kf] :: rest =>
+      match m.toNat?, k1.toNat?, k2.toNat?, kf.toNat? with
+      | some m, some k1, some k2, some kf =>
+        if rest.length < k1 + k2 + 3 then none
+        else
+          match allParts? (parseGate? d) (rest.take k1), allParts? (parseGate? d) ((rest.drop k1).take k2),
+              ts[m]?, ts[m + 1]? with
+          | some gs1, some gs2, some A, some B =>
+            let id0 := tab.size
+            let is1 : List Instr := (List.range gs1.length).zipWith (fun j g => ⟨id0 + j, g.sites⟩) gs1
+            let is2 : List Instr := (List.range gs2.length).zipWith (fun j g => ⟨id0 + gs1.length + j, g.sites⟩) gs2
+            let tab' := (tab ++ gs1.toArray) ++ gs2.toArray
+            let step : Step := ⟨m, is1, is2⟩
+            let tail := rest.drop (k1 + k2)
+            let rows := d * d * A.dl
+            let cols := d * d * B.dr
+            match parseArr? (rows * kf) (tail.getD 0 []), parseAll? parseRat? (tail.getD 1 []), parseArr? (kf * cols) (tail.getD 2 []) with
+            | some ua, some sl, some va =>
+              if sl.length ≠ kf then none
+              else
+                let sa := sl.toArray
+                let dec : Svd CRat := ⟨fun i p => ua.getD (i * kf + p) 0, sl, fun p => CRat.ofRat (sa.getD p 0),
+                  fun p j => va.getD (p * cols + j) 0⟩
+                let gate : Instr → Gate CRat := fun i => tab'.getD i.id ⟨false, 0, [], fun _ _ => 0, fun _ _ _ _ => 0⟩
+                match updateThetaM CRat.conj d m A B gs1 gs2, updateMpo CRat.conj d thr gate gate ts step dec with
+                | some a, some ts' =>
+                  let txt := showTm d A.dl B.dr (ofTab6 d A.dl d d B.dr a) ++ s!" | keep {Rank.keepTheta dec.s thr}"
+                  lrSteps d thr k (tail.drop 3) ts' tab' (txt :: acc) (step :: steps) (dec :: decs)
+                | _, _ => none
+            | _, _, _ => none
+          | _, _, _, _ => none
+      | _, _, _, _ => none
+    | _ => none
+
+open Yaqs.CheckerChain in
+def handleLR (parts : List (List String)) : String :=
+  match parts with
+  | ["lrlayer", c, d, thr, q0, q1, nG, n, nsteps] :: rest =>
+    match c.toNat?, d.toNat?, parseRat? thr, q0.toNat?, q1.toNat?, nG.toNat?, n.toNat?, nsteps.toNat? with
+    | some c, some d, some thr, some q0, some q1, some nG, some n, some nsteps =>
+      if rest.length < nG + n then "bad-op"
+      else
+        match allParts? parseSite? (rest.take nG), allParts? parseSite? ((rest.drop nG).take n) with
+        | some gm, some ts =>
+          let g : Instr := ⟨0, [q0, q1]⟩
+          let conj := decide (c = 2)
+          if ¬ (gm.length = dist g.qs ∧ lrLoc g + gm.length ≤ ts.length) then "assert"
+          else
+            let ts0 := lrMul conj (lrGateTensors CRat.conj conj gm) (lrLoc g) ts
+            match lrSteps d thr nsteps (rest.drop (nG + n)) ts0 #[] [] [] [] with
+            | some (txts, steps, decs, tab) =>
+              let gate : Instr → Gate CRat := fun i => tab.getD i.id ⟨false, 0, [], fun _ _ => 0, fun _ _ _ _ => 0⟩
+              match lrLayer CRat.conj d thr gate gate ts c g gm steps decs with
+              | some ts' =>
+                " | ".intercalate (txts ++ ["chain"] ++ ((ts'.drop (lrLoc g)).take nG).map showSite)
+              | none => "assert"
+            | none => "bad-op"
+        | _, _ => "bad-op"
+    | _, _, _, _, _, _, _, _ => "bad-op"
+  | ["lrstack", c, d, loc, nG, n] :: rest =>
+    match c.toNat?, d.toNat?, loc.toNat?, nG.toNat?, n.toNat? with
+    | some c, some _, some loc, some nG, some n =>
+      if rest.length ≠ nG + n then "bad-op"
+      else
+        match allParts? parseSite? (rest.take nG), allParts? parseSite? (rest.drop nG) with
+        | some gm, some ts =>
+          if loc + nG > ts.length then "bad-op"
+          else
+            let conj := decide (c = 2)
+            " | ".intercalate (((lrMul conj (lrGateTensors CRat.conj conj gm) loc ts).drop loc).take nG |>.map showSite)
+        | _, _ => "bad-op"
+    | _, _, _, _, _ => "bad-op"
+  | _ => "bad-op"
+
 def handle (parts : List (List String)) : String :=
   match parts with
   | [["thetaof"], aw, bw] =>
@@ -244,6 +337,8 @@ def handle (parts : List (List String)) : String :=
       | some z => "tr " ++ showC z ++ " dec " ++ showBool (identityDecision z ts.length f)
       | none => "assert"
     | _, _ => "bad-op"
+  | ("lrlayer" :: _) :: _ => handleLR parts
+  | ("lrstack" :: _) :: _ => handleLR parts
   | _ => "bad-op"
 
 end MpoUpdDrv
